@@ -49,6 +49,23 @@ class Ref:
         return "Ref(_%s%s)" % (self.local, self.proj)
 
 
+class HRef:
+    """reference to element idx of heap vector vid (heap = mstate['heap'])"""
+
+    def __init__(self, vid, idx):
+        self.vid = vid
+        self.idx = idx
+
+    def __repr__(self):
+        return "HRef(%s[%d])" % (self.vid, self.idx)
+
+    def __eq__(self, o):
+        return isinstance(o, HRef) and (o.vid, o.idx) == (self.vid, self.idx)
+
+    def __hash__(self):
+        return hash(("HRef", self.vid, self.idx))
+
+
 class Agg:
     def __init__(self, kind, name, variant, fields):
         self.kind = kind
@@ -202,6 +219,9 @@ class Interp:
             if e == "*":
                 if isinstance(v, Ref):
                     v = self._project(env, env.get(v.local, TOP), v.proj)
+                elif isinstance(v, HRef):
+                    items = self.mstate.get("heap", {}).get(v.vid, ())
+                    v = items[v.idx] if v.idx < len(items) else TOP
                 elif isinstance(v, Sym):
                     v = v.fields.get("*", v)
                 else:
@@ -231,29 +251,42 @@ class Interp:
         if not proj:
             env[l] = val
             return
-        # resolve through leading deref of a Ref
-        base = env.get(l, TOP)
-        if proj[0] == "*" and isinstance(base, Ref):
-            self.write_place(env, [base.local, base.proj + list(proj[1:])], val)
-            return
-        if isinstance(base, Agg) and proj[0][0] == "f" and len(proj) == 1:
-            nb = Agg(base.kind, base.name, base.variant, base.fields)
-            while len(nb.fields) <= proj[0][1]:
-                nb.fields.append(TOP)
-            nb.fields[proj[0][1]] = val
-            env[l] = nb
-            return
-        if isinstance(base, Agg) and proj[0][0] == "f":
-            inner = base.fields[proj[0][1]] if proj[0][1] < len(base.fields) else TOP
-            tmp = {"x": inner}
-            self.write_place(tmp, ["x", proj[1:]], val)
-            nb = Agg(base.kind, base.name, base.variant, base.fields)
-            nb.fields[proj[0][1]] = tmp["x"]
-            env[l] = nb
-            return
-        # unknown structure: the base becomes TOP unless it is a symbol (stores into symbols are events only)
-        if not isinstance(base, Sym):
-            env[l] = TOP
+        env[l] = self._store(env, env.get(l, TOP), list(proj), val)
+
+    def _store(self, env, base, proj, val):
+        """value of `base` after storing val at base.proj (writes through references as a side effect)"""
+        if not proj:
+            return val
+        e = proj[0]
+        if e == "*":
+            if isinstance(base, Ref):
+                self.write_place(env, [base.local, base.proj + list(proj[1:])], val)
+                return base
+            if isinstance(base, HRef):
+                h = dict(self.mstate.get("heap", {}))
+                items = list(h.get(base.vid, ()))
+                if base.idx < len(items):
+                    items[base.idx] = self._store(env, items[base.idx], proj[1:], val)
+                    h[base.vid] = tuple(items)
+                    self.mstate["heap"] = h
+                return base
+            if isinstance(base, Sym):
+                return base  # stores into opaque symbols are visible as events only
+            # transparent reference to a plain value
+            return self._store(env, base, proj[1:], val)
+        if isinstance(e, list) and e[0] == "d":
+            return self._store(env, base, proj[1:], val)
+        if isinstance(e, list) and e[0] == "f":
+            if isinstance(base, Agg):
+                nb = Agg(base.kind, base.name, base.variant, base.fields)
+                while len(nb.fields) <= e[1]:
+                    nb.fields.append(TOP)
+                nb.fields[e[1]] = self._store(env, nb.fields[e[1]], proj[1:], val)
+                return nb
+            if isinstance(base, Sym):
+                return base
+            return TOP
+        return base if isinstance(base, Sym) else TOP
 
     def operand(self, env, op):
         if op[0] in ("copy", "move"):
@@ -345,6 +378,8 @@ class Interp:
                     return self._project(env, base, p[1])
                 if base is TOP:
                     return TOP
+                if isinstance(base, HRef):
+                    return base if len(p[1]) == 1 else self._project(env, base, p[1])
                 # reference to (part of) a plain value: transparent
                 return self._project(env, base, p[1][1:])
             return Ref(p[0], p[1])
@@ -597,6 +632,8 @@ def std_oracle(interp, env, f, args, t, bb, path):
         if isinstance(v, Sym) and "deref" in v.fields:
             return v.fields["deref"]
         return a0
+    if key in ("core::option::Option::as_ref", "core::option::Option::as_mut", "core::option::Option::as_deref", "core::option::Option::as_deref_mut"):
+        return deref(a0)
     if key in ("core::convert::Into::into", "core::convert::From::from") and (f.get("gargs") or [None, None])[0] == (f.get("gargs") or [None, None])[-1]:
         return a0
     if key == "core::clone::Clone::clone":
